@@ -292,7 +292,14 @@ def run(ctx):
         if cfg == "NameCodecGenPost.cfg" and not ctx.quick():
             files = {"NCg.cfg": open(os.path.join(vlib.SPEC_DIR, cfg)).read().replace("MaxGlyphs = 3", "MaxGlyphs = 4")}
             cfg = "NCg.cfg"
-        g = ctx.tlc("NameCodecGen", cfg=cfg, timeout=900, label="generation " + cfg, files=files, **kw)
+        sim = "simulate" in kw
+        g = ctx.tlc("NameCodecGen", cfg=cfg, timeout=900, label="generation " + cfg, files=files, count=not sim, **kw)
+        if sim:
+            # a simulation run reports generated successor states only: not counted as distinct states
+            ctx.cov["transitions"] += g.generated
+            ctx.cov["tlc_runs"].append({"label": "generation %s (simulation, %d behaviours)" % (cfg, kw["simulate"]),
+                                        "cmd": g.cmd, "generated": g.generated, "distinct": 0, "diameter": 0,
+                                        "wall_s": round(g.wall, 2), "cases": len(g.cases), "violated": g.violated})
         if g.violated:
             raise vlib.Infra("generation run %s violated %s" % (cfg, g.violated))
         if not g.cases:
